@@ -631,7 +631,81 @@ func edgeFacts(from, to *ssa.BasicBlock) []condFact {
 	if neg {
 		val = !val
 	}
-	return []condFact{{v, val}}
+	out := []condFact{{v, val}}
+	return append(out, impliedByPhi(v, val, 0)...)
+}
+
+// impliedByPhi: when a branch tests a boolean that merges several tests
+// (`ok := false; if a { ok = b }`, a lowered `a && b`, the result of an inlined predicate helper with an
+// early `return false`), and only ONE incoming edge of the phi can give it the tested value, taking the branch
+// implies everything that holds on that edge: the facts controlling the predecessor, the predecessor's own
+// branch fact, and the (non-constant) incoming value itself.  Disjunctions (several edges can give the value)
+// yield nothing.
+var impliedBusy = map[*ssa.Phi]bool{}
+
+type impliedKey struct {
+	phi *ssa.Phi
+	val bool
+}
+
+var impliedCache = map[impliedKey][]condFact{}
+
+func impliedByPhi(v ssa.Value, val bool, depth int) []condFact {
+	phi, ok := v.(*ssa.Phi)
+	if !ok || depth > 3 || impliedBusy[phi] {
+		return nil
+	}
+	if b, ok := phi.Type().Underlying().(*types.Basic); !ok || b.Info()&types.IsBoolean == 0 {
+		return nil
+	}
+	live, n := -1, 0
+	for i, e := range phi.Edges {
+		if k, isC := e.(*ssa.Const); isC && k.Value != nil && k.Value.Kind() == constant.Bool && constant.BoolVal(k.Value) != val {
+			continue
+		}
+		n++
+		live = i
+	}
+	if n != 1 || live >= len(phi.Block().Preds) {
+		return nil
+	}
+	ck := impliedKey{phi, val}
+	if r, ok := impliedCache[ck]; ok {
+		return r
+	}
+	impliedBusy[phi] = true
+	defer delete(impliedBusy, phi)
+	pred := phi.Block().Preds[live]
+	var out []condFact
+	defer func() { impliedCache[ck] = out }()
+	if f, ok := factsCache[pred]; ok {
+		out = append(out, f...)
+	} else {
+		f := controllingFacts(pred.Parent(), pred)
+		if len(impliedBusy) == 1 {
+			factsCache[pred] = f // complete: no other merged flag was being expanded while it was computed
+		}
+		out = append(out, f...)
+	}
+	if ifi := blockIf(pred); ifi != nil && len(pred.Succs) == 2 && pred.Succs[0] != pred.Succs[1] {
+		cv, neg := stripNot(ifi.Cond)
+		cval := phi.Block() == pred.Succs[0]
+		if neg {
+			cval = !cval
+		}
+		out = append(out, condFact{cv, cval})
+		out = append(out, impliedByPhi(cv, cval, depth+1)...)
+	}
+	if _, isC := phi.Edges[live].(*ssa.Const); !isC {
+		ev, neg := stripNot(phi.Edges[live])
+		eval := val
+		if neg {
+			eval = !eval
+		}
+		out = append(out, condFact{ev, eval})
+		out = append(out, impliedByPhi(ev, eval, depth+1)...)
+	}
+	return out
 }
 
 // guardedBy reports whether every path from fn entry to target block crosses an
